@@ -74,3 +74,24 @@ Example C12_reaches_nonvacuous :
   let c2 := fst (c_step true true tid_id c1 (CSetNow 1000000)) in
   snd (c_step true true tid_id c2 (CDeliver resp)) = [OInvoke 0 5 (HRMsg resp)] /\ c_T (fst (c_step true true tid_id c2 (CDeliver resp))) = [].
 Proof. vm_compute. split; reflexivity. Qed.
+
+(* an indication - whatever transaction ID its bytes carry, whether its Write succeeds or fails - touches
+   neither the client's transactions nor the agent: a request in flight with the same ID stays registered
+   (so, by C12_deliver_reaches, its response still reaches its handler) *)
+Theorem C12_indication_keeps_transactions : forall c id raw,
+  c_T (fst (c_start c id raw None)) = c_T c /\ c_A (fst (c_start c id raw None)) = c_A c /\
+  c_closed (fst (c_start c id raw None)) = c_closed c.
+Proof. exact indication_keeps_transactions. Qed.
+Print Assumptions C12_indication_keeps_transactions.
+
+(* non-vacuity: a request in flight; the next write of an indication is scripted to fail; an indication with
+   the request's own ID is sent (and fails); the response still reaches the request's handler *)
+Example C12_failing_indication_nonvacuous :
+  let req := [0; 1; 0; 0; 33; 18; 164; 66; 0; 0; 0; 0; 0; 0; 0; 0; 0; 0; 0; 7] in
+  let ind := [0; 17; 0; 0; 33; 18; 164; 66; 0; 0; 0; 0; 0; 0; 0; 0; 0; 0; 0; 7] in
+  let resp := [1; 1; 0; 0; 33; 18; 164; 66; 0; 0; 0; 0; 0; 0; 0; 0; 0; 0; 0; 7] in
+  let c1 := fst (c_step true true tid_id (new_client 100 7 true None) (CStart (tid_id (drop 8 req)) req 5)) in
+  let c2 := fst (c_step true true tid_id c1 (CFail [65535])) in
+  snd (c_step true true tid_id c2 (CIndicate ind)) = [ORet CWriteErr] /\
+  snd (c_step true true tid_id (fst (c_step true true tid_id c2 (CIndicate ind))) (CDeliver resp)) = [OInvoke 0 5 (HRMsg resp)].
+Proof. vm_compute. split; reflexivity. Qed.
